@@ -37,6 +37,14 @@ SAN_ENV = {
 }
 
 
+# valgrind memcheck on the uninstrumented build: definedness of every value that reaches a branch, an address or a
+# system call (the compiler sanitizers installed here cannot see uninitialised reads; MSan needs an instrumented libstdc++)
+WRAPPERS = {
+    'memcheck': ['valgrind', '--tool=memcheck', '--quiet', '--error-exitcode=96', '--exit-on-first-error=yes',
+                 '--leak-check=no', '--num-callers=16', '--undef-value-errors=yes', '--partial-loads-ok=yes'],
+}
+
+
 class HarnessError(Exception):
     pass
 
@@ -143,6 +151,8 @@ _FRAME_RE = re.compile(r'#\d+ 0x[0-9a-f]+ in (.+?) (/\S+?):(\d+)')
 
 
 _CTX_RE = re.compile(r'VF-CONTEXT: (.*)')
+_VG_KIND_RE = re.compile(r'^==\d+== ((?:Conditional jump|Use of uninitialised|Invalid (?:read|write|free)|Syscall param|Mismatched free|Source and destination overlap|Argument .* of function|Jump to the invalid)[^\n]*)', re.M)
+_VG_FRAME_RE = re.compile(r'^==\d+==\s+(?:at|by) 0x[0-9A-F]+: (.+?) \((?:in )?([^():]+)(?::\d+)?\)', re.M)
 
 
 def crash_signature(stderr_text, rc):
@@ -163,6 +173,15 @@ def _crash_signature(stderr_text, rc):
         msg = re.sub(r'0x[0-9a-f]+', 'ADDR', rt.group(1))
         msg = re.sub(r'-?\d+(\.\d+)?(e[+-]?\d+)?', 'N', msg)
         kind = 'UBSan:' + msg[:80]
+    vg = _VG_KIND_RE.search(stderr_text)
+    if vg and not kind:
+        kind = 'memcheck:' + re.sub(r'\d+', 'N', vg.group(1))[:70]
+        for fm in _VG_FRAME_RE.finditer(stderr_text):
+            fn, path = fm.group(1), fm.group(2)
+            if fn.startswith('ArduinoJson') or 'ArduinoJson' in path:
+                fn = re.sub(r'[(<].*', '', fn)
+                return kind + ' at %s (%s)' % (fn.split('::')[-1], os.path.basename(path))
+        return kind
     if not kind:
         if 'Assertion' in stderr_text and 'failed' in stderr_text:
             m2 = re.search(r"Assertion `(.*?)' failed", stderr_text)
@@ -186,23 +205,28 @@ class Job:
     """One (driver binary, mode, count) unit; fanned out over `workers` processes."""
 
     def __init__(self, name, driver, mode, count, flavour='asan', defines=None, shim=False, leaks=False,
-                 timeout=900, single_timeout=120, workers=None, extra=None, max_crashes=25):
+                 timeout=900, single_timeout=120, workers=None, extra=None, max_crashes=25, wrapper=None):
         self.name, self.driver, self.mode, self.count = name, driver, mode, count
         self.flavour, self.defines, self.shim, self.leaks = flavour, dict(defines or {}), shim, leaks
         self.timeout, self.single_timeout, self.workers, self.extra = timeout, single_timeout, workers, extra
         self.max_crashes = max_crashes
+        self.wrapper = WRAPPERS[wrapper] if wrapper else []   # e.g. 'memcheck': the plain binary under valgrind
+        self.wrapper_name = wrapper
         self.exe = None
 
     def spec(self):
         return dict(driver=self.driver, flavour=self.flavour, defines=self.defines, shim=self.shim, extra=self.extra)
 
     def ident(self):
-        return dict(job=self.name, driver=self.driver, mode=self.mode, flavour=self.flavour, defines=self.defines, shim=self.shim)
+        d = dict(job=self.name, driver=self.driver, mode=self.mode, flavour=self.flavour, defines=self.defines, shim=self.shim)
+        if self.wrapper_name:
+            d['wrapper'] = self.wrapper_name
+        return d
 
 
 def run_single(job, seed, index, tier, timeout=None, verbose=True):
     """Run exactly one case in a fresh process. Returns (rc or 'timeout', stderr_text)."""
-    cmd = [job.exe, '--mode', job.mode, '--seed', str(seed), '--only', str(index), '--tier', str(tier)]
+    cmd = job.wrapper + [job.exe, '--mode', job.mode, '--seed', str(seed), '--only', str(index), '--tier', str(tier)]
     try:
         p = subprocess.run(cmd, stdout=subprocess.PIPE, stderr=subprocess.PIPE, env=san_env(job.leaks),
                            timeout=timeout or job.single_timeout, errors='replace', text=True, preexec_fn=_die_with_parent)
@@ -231,7 +255,7 @@ def run_job(job, seed, tier, workdir, log):
         out = os.path.join(workdir, 'w%d.g%d.jsonl' % (w, gen))
         crumb = os.path.join(workdir, 'w%d.crumb' % w)
         errp = os.path.join(workdir, 'w%d.g%d.err' % (w, gen))
-        cmd = [job.exe, '--mode', job.mode, '--seed', str(seed), '--count', str(total), '--worker', str(w),
+        cmd = job.wrapper + [job.exe, '--mode', job.mode, '--seed', str(seed), '--count', str(total), '--worker', str(w),
                '--workers', str(W), '--start', str(start), '--out', out, '--crumb', crumb, '--tier', str(tiern)]
         ef = open(errp, 'w')
         p = subprocess.Popen(cmd, stdout=subprocess.DEVNULL, stderr=ef, env=san_env(job.leaks), preexec_fn=_die_with_parent)
@@ -388,7 +412,7 @@ def write_replay(prop, v, seed, tier):
     body = dict(property=prop, seed=seed, tier=tier, driver=v['driver'], mode=v['mode'], flavour=v['flavour'],
                 defines=v['defines'], shim=v['shim'], index=v['index'], clause=v['clause'], detail=v.get('detail', ''),
                 witness=v.get('witness', ''))
-    for k in ('range', 'worker', 'workers'):
+    for k in ('range', 'worker', 'workers', 'wrapper'):
         if k in v:
             body[k] = v[k]
     h = hashlib.sha256(json.dumps([body[k] for k in ('driver', 'mode', 'defines', 'index', 'clause', 'seed')], sort_keys=True).encode()).hexdigest()[:12]
